@@ -3,9 +3,9 @@ package main
 // Rules added after the third round of independently seeded changes.
 
 import (
+	"fmt"
 	"go/token"
 	"go/types"
-	"fmt"
 	"os"
 	"path/filepath"
 	"sort"
